@@ -1,0 +1,22 @@
+//go:build verif
+
+package s2
+
+// This file is compiled only with the build tag "verif". It exposes the two
+// unexported slices of a built CellIndex to the external verification harness.
+// It adds no behaviour.
+
+// VerifCellIndexDump returns copies of cellTree (as parallel slices cellID,
+// label, parent) and rangeNodes (as parallel slices startID, contents).
+func VerifCellIndexDump(c *CellIndex) (cells []CellID, labels, parents []int32, starts []CellID, contents []int32) {
+	for _, n := range c.cellTree {
+		cells = append(cells, n.cellID)
+		labels = append(labels, n.label)
+		parents = append(parents, n.parent)
+	}
+	for _, r := range c.rangeNodes {
+		starts = append(starts, r.startID)
+		contents = append(contents, r.contents)
+	}
+	return
+}
